@@ -67,7 +67,12 @@ Fixpoint find_exc (ex : list (N * N * N)) (t s : N) : N :=
   | (t', s', c) :: r => if (t =? t') && (s =? s') then c else find_exc r t s
   end.
 Definition all256n : list N := all256.
-(* the implementation's class is 0 for every pair except those listed *)
-Definition chk_pairs (prime : list (N * N)) (exceptions : list (N * N * N)) : bool :=
+(* the implementation's class is 0 for every pair except those listed.  [inprog] is the total of the
+   message the history [prime] leaves in progress (0: none): a segment announcing ANOTHER total
+   "yields a value or an ignored segment" (C11) — ignored, or the message started afresh — so for those
+   pairs only "neither panics" is compared; every other pair exactly *)
+Definition chk_pairs (prime : list (N * N)) (inprog : N) (exceptions : list (N * N * N)) : bool :=
   let pr := map (fun ts => pair_seg 1 (fst ts) (snd ts)) prime in
-  forallb (fun t => forallb (fun s => pair_class pr t s =? find_exc exceptions t s) all256n) all256n.
+  forallb (fun t => forallb (fun s =>
+    let m := pair_class pr t s in let i := find_exc exceptions t s in
+    (m =? i) || (negb (inprog =? 0) && negb (t =? inprog) && (m <? 2) && (i <? 2))) all256n) all256n.
